@@ -98,7 +98,7 @@ func runMutant(id, patch string) (failed []string, errs []string, err error) {
 	work := filepath.Join(verifDir, ".work", fmt.Sprintf("%s-mutant-%d", id, os.Getpid())) // concurrent runs must not share query files
 	os.RemoveAll(work)
 	defer os.RemoveAll(work)
-	cfg := &SolverCfg{WorkDir: work, Timeout: 30e9, Parallel: 16}
+	cfg := &SolverCfg{WorkDir: work, Timeout: 30e9, Parallel: 16, NoPatient: true}
 	stats := &solverStats{byBack: map[string]int{}}
 	solveAll(cfg, all, stats)
 	for _, o := range all {
